@@ -32,6 +32,7 @@ type RFCase struct {
 	EOFWarning bool   `json:"eof_warning,omitempty"`
 	Absent     bool   `json:"absent,omitempty"`
 	Siblings   bool   `json:"siblings,omitempty"`
+	NoOddINS   bool   `json:"no_odd_ins,omitempty"`
 	// link faults (C11 use of this engine): up to two, scalar fields keep the case comparable
 	F1Kind string `json:"f1_kind,omitempty"`
 	F1At   int    `json:"f1_at,omitempty"`
@@ -163,6 +164,7 @@ func genRF(rng *core.Rng, i int) RFCase {
 	c.EOFWarning = rng.Chance(1, 4)
 	c.Absent = rng.Chance(1, 40)
 	c.Siblings = rng.Chance(2, 3)
+	c.NoOddINS = c.ContentLen > 32000 && rng.Chance(1, 3)
 	return c
 }
 
@@ -239,6 +241,7 @@ func (ReadFileEngine) Shrink(c any) []any {
 	})
 	add(func(y *RFCase) { y.Siblings = false })
 	add(func(y *RFCase) { y.EOFWarning = false })
+	add(func(y *RFCase) { y.NoOddINS = false })
 	add(func(y *RFCase) { y.NoExtLen = false })
 	add(func(y *RFCase) { y.ShortMode, y.ShortFixed = "", 0 })
 	add(func(y *RFCase) { y.MaxResp = 0 })
@@ -289,6 +292,7 @@ func (ReadFileEngine) Run(prop string, ci any) *core.Outcome {
 	}
 	b := chip.DefaultBehaviour()
 	b.MaxResp, b.ShortMode, b.ShortFixed, b.LeCap, b.ExtLen, b.EOFWarning = c.MaxResp, c.ShortMode, c.ShortFixed, c.LeCap, !c.NoExtLen, c.EOFWarning
+	b.NoOddINS = c.NoOddINS
 	ch := chip.New(p, b, core.NewRng(core.SubSeed(c.Seed, "chip")))
 	faults := c.faults()
 	link := term.NewLink(ch, faults, out)
